@@ -37,6 +37,11 @@ pub enum Job {
     FontBuild { font: String, seed: u64 },
     /// klippa subset
     Subset { font: String, gids: Vec<u32>, unicodes: Vec<u32>, flags: u16 },
+    /// SinglePosBuilder with several equal-sized groups of glyphs sharing a value record
+    SinglePos { groups: u16, group_size: u16, extra_formats: u16, seed: u64 },
+    /// "building a font" through the IFT client: one select-and-apply round over a generated world in
+    /// which two glyph-keyed patches of one group supply different data for a shared glyph
+    IftApply { seed: u64 },
 }
 
 impl Job {
@@ -372,7 +377,86 @@ fn run_job_inner(job: &Job) -> Result<Vec<u8>, String> {
             let f = corpus::by_name(font).ok_or("nofont")?;
             subset_font(f.data, gids, unicodes, *flags)
         }
+        Job::SinglePos { groups, group_size, extra_formats, seed } => {
+            use tables::gpos::builders::{SinglePosBuilder, ValueRecordBuilder};
+            use tables::layout::builders::{Builder, LookupBuilder};
+            use tables::variations::ivs_builder::VariationStoreBuilder;
+            use tables::{gpos, layout};
+            let mut rng = Rng::new(*seed);
+            let mut b = SinglePosBuilder::default();
+            let mut gid = 1u16;
+            for g in 0..*groups {
+                // each group shares one value record; several groups have the same size
+                let rec = ValueRecordBuilder::new().with_x_advance(10 + g as i16).with_x_placement((g % 3) as i16);
+                for _ in 0..(*group_size).max(1) {
+                    b.insert(GlyphId16::new(gid), rec.clone());
+                    gid += 1 + rng.below(3) as u16;
+                }
+            }
+            for k in 0..*extra_formats {
+                // small groups with distinct value formats end up in per-format subtables
+                let rec = match k % 3 {
+                    0 => ValueRecordBuilder::new().with_y_advance(5 + k as i16),
+                    1 => ValueRecordBuilder::new().with_y_placement(7 + k as i16),
+                    _ => ValueRecordBuilder::new().with_x_placement(3).with_y_placement(k as i16 + 1),
+                };
+                b.insert(GlyphId16::new(gid), rec);
+                gid += 2;
+            }
+            let lb = LookupBuilder::new_with_lookups(layout::LookupFlag::empty(), None, vec![b]);
+            let mut vs = VariationStoreBuilder::new(0);
+            let lookup: layout::Lookup<gpos::SinglePos> = lb.build(&mut vs);
+            let table = gpos::Gpos::new(Default::default(), Default::default(), layout::LookupList::new(vec![gpos::PositionLookup::Single(lookup)]));
+            dump_table(&table).map_err(|e| err_kind(&e))
+        }
+        Job::IftApply { seed } => ift_apply_job(*seed),
     }
+}
+
+fn ift_apply_job(seed: u64) -> Result<Vec<u8>, String> {
+    use crate::ift::{sim, world};
+    use incremental_font_transfer::patch_group::{PatchGroup, UriStatus};
+    let mut rng = Rng::new(seed);
+    let mut w = world::gen_world(&mut rng);
+    // make two glyph-keyed patches of the root table disagree on a shared glyph
+    let Some(r) = w.roots[0] else { return Err("noroot".into()) };
+    let tag = w.outline_tag();
+    let idx: Vec<usize> = w.versions[r].entries.iter().enumerate().filter(|(_, e)| e.format == 3 && !e.ignored).map(|(i, _)| i).collect();
+    if idx.len() >= 2 {
+        let (pa, pb) = (w.versions[r].entries[idx[0]].patch, w.versions[r].entries[idx[1]].patch);
+        let shared = 1u32.min(w.n_glyphs - 1);
+        for (k, p) in [(0u8, pa), (1u8, pb)] {
+            if let world::Patch::Glyph { gids, tables, alt, .. } = &mut w.patches[p] {
+                if !gids.contains(&shared) {
+                    gids.push(shared);
+                    gids.sort_unstable();
+                }
+                if !tables.contains(&tag) {
+                    tables.push(tag);
+                    tables.sort();
+                }
+                *alt = k;
+            }
+        }
+        if pa == pb {
+            return Err("shared".into());
+        }
+    }
+    let base = w.base_font();
+    let server = sim::server_index(&w);
+    let fr = FontRef::new(&base).map_err(|_| "open".to_string())?;
+    let def = sim::real_def(&world::Def::all());
+    let group = PatchGroup::select_next_patches(fr, &def).map_err(|_| "select".to_string())?;
+    let mut book: HashMap<String, UriStatus> = HashMap::new();
+    for u in group.uris() {
+        if let Some((v, e)) = server.get(u) {
+            book.insert(u.to_string(), UriStatus::Pending(w.patch_bytes(*v, *e)));
+        }
+    }
+    if !group.has_uris() {
+        return Ok(base);
+    }
+    group.apply_next_patches(&mut book).map_err(|e| format!("apply:{}", short_debug(&e)))
 }
 
 // ------------------------------------------------------------------ job pool
@@ -423,7 +507,7 @@ pub fn pool() -> &'static Pool {
 
 pub fn gen_job(rng: &mut Rng, heavy_ok: bool) -> Job {
     let p = pool();
-    let w = if heavy_ok { [40u32, 6, 3, 6, 6, 8, 8, 6, 8, 9] } else { [60, 0, 0, 4, 4, 8, 8, 6, 6, 4] };
+    let w = if heavy_ok { [40u32, 6, 3, 6, 6, 8, 8, 6, 8, 9, 6, 6] } else { [60, 0, 0, 4, 4, 8, 8, 6, 6, 4, 5, 5] };
     match rng.weighted(&w) {
         0 => {
             let (f, t) = rng.pick(&p.roundtrips).clone();
@@ -457,6 +541,8 @@ pub fn gen_job(rng: &mut Rng, heavy_ok: bool) -> Job {
             let f = &rng.pick(&p.roundtrips).0;
             Job::FontBuild { font: f.clone(), seed: rng.below(4) }
         }
+        10 => Job::SinglePos { groups: 2 + rng.below(6) as u16, group_size: 2 + rng.below(8) as u16, extra_formats: rng.below(5) as u16, seed: rng.below(6) },
+        11 => Job::IftApply { seed: rng.below(400) },
         _ => {
             let (f, n, cps) = rng.pick(&p.subsettable).clone();
             let mut gids = Vec::new();
